@@ -2,3 +2,7 @@ CLAIMS["C42"] = ("proof",
   "Every clause of the property is a postcondition on the real Freq methods (Period, Cycle, ThisTick, NextTick, NCyclesLater, NoEarlierThan), stated with mathematical integers over all f in [1,1e12] and all 64-bit times, with uint64 wrap-around modelled; each obligation is discharged unboundedly by z3/cvc5.",
   "Trusted: engine's SSA semantics, solvers. Claim covers results that fit in 64 bits (the property's 'every time' cannot be met by any uint64 result beyond that).",
   "DESIGN.md §5 C42")
+CLAIMS["C24"] = ("proof",
+  "The converter's contract (panics iff the address is below Offset or owned by another element; otherwise result = (a div IS*N)*IS + a mod IS with a = external-Offset) is proved on the real ConvertExternalToInternal/ConvertAddress/bankSelectionAddress for all 64-bit inputs; order preservation, injectivity, in-stripe and stripe-to-stripe contiguity and agreement with InterleavedAddressPortMapper.Find are lemmas proved from that postcondition over the unique decomposition a=(k*N+o)*IS+m.",
+  "Precondition: IS>0, N>0, 0<=idx<N, IS*N<2^64 (a configuration for which IS*N wraps is outside the claim). Mapper agreement is stated for offsets that are multiples of IS*N (the only offsets the mapper can express). simplebankedmemory.selectBank (power-of-two shift) is not under contract.",
+  "DESIGN.md §5 C24")
